@@ -535,6 +535,7 @@ def judge_c12(ctx, cfg, inputs, aux=None):
     # construction routes of the iterator: Deserializer::new(read).into_iter() (plain), StreamDeserializer::new(read) (+n), the reader passed
     # as `&mut R` through the forwarding impl (+m) — all must give the history of the model; the extra routes run on every third input
     routes = [('b', 1), ('r1', 1), ('b+m', 3), ('r1+m', 3), ('r1+n', 3), ('r3+m+n', 3), ('s+m', 3)]
+    eofq = []
     for tgt in ('v', 'i'):
         for src, step in routes:
             ins = [d for d in inputs[::step] if not src.startswith('s') or gen.is_utf8(d)]
@@ -560,6 +561,38 @@ def judge_c12(ctx, cfg, inputs, aux=None):
                         done = True
                 if not ctx.quiet and len(ca) > 1:
                     ctx.distinct_nontrivial += 1
+                # "Eof whenever the rest of the input is a proper prefix of a value, Syntax otherwise": an Eof item must sit on a VIABLE fragment.
+                # Decided by the proved oracle (Properties/C11.v C11_eof_viable_decidable / _ignored): Eof + the three side conditions => a continuation
+                # is accepted.  A false side condition is either the property's own carve-out (a \u escape cut off by the end of input), or a dead
+                # fragment reported as Eof (known finding F24: bytes no UTF-8 text contains inside an unterminated string; `e+` after an out-of-range mantissa)
+                if step == 1:
+                    for it in items:
+                        if it[0] == 'E' and '/eof/' in it:
+                            off = int(it.rsplit('@', 1)[1])
+                            eofq.append((d, off, tgt, src, a))
+                            break
+    if eofq and ctx.model_ok:
+        outs = ctx.model(['vb %s %s' % (L, hx(d[off:])) for d, off, tgt, src, a in eofq], 'sjdriver_viable')
+        for (d, off, tgt, src, a), o in zip(eofq, outs):
+            bits = dict((x[0], x[1] == '1') for x in o.split(' ')) if o.startswith('u') else {}
+            if not bits:
+                continue
+            if tgt == 'i':
+                if bits['i']:
+                    ctx.count('eof-item:viable (proved, skip scanner)')
+                else:
+                    ctx.count('eof-item:cut \\u escape (carve-out)')
+                continue
+            if bits['u'] and bits['e'] and bits['n']:
+                ctx.count('eof-item:viable (proved)')
+            elif not bits['u']:
+                v.append({'what': 'eof-on-dead-fragment', 'class': 'invalid-utf8-in-unterminated-string', 'cfg': cfg, 'input': hx(d),
+                          'expected': 'a Syntax error: no continuation of %s is valid UTF-8, hence none is JSON' % hx(d[off:]), 'actual': a, 'shrinkable': False})
+            elif not bits['e']:
+                ctx.count('eof-item:cut \\u escape (carve-out)')
+            else:
+                v.append({'what': 'eof-on-dead-fragment', 'class': 'exponent-sign-after-out-of-range-mantissa', 'cfg': cfg, 'input': hx(d),
+                          'expected': 'a Syntax error (number out of range whatever follows)', 'actual': a[:200], 'shrinkable': False})
     return v
 
 def run_c12(ctx):
